@@ -271,6 +271,31 @@ theorem pres_writeW (k : Nat) (s0 : St) :
     · exact pres_id k s0 _
     · exact pres_reactStep k s0 (writeW fuel) ih _ _ _
 
+theorem pres_tactW (k : Nat) (s0 : St) (u : Nat) : ∀ (acts : List TAct) (w : World), PresAt k s0 w (tactW w u acts) := by
+  intro acts
+  induction acts with
+  | nil => intro w; exact pres_id k s0 w
+  | cons a r ih =>
+    intro w
+    exact pres_comp (pres_stepAt k s0 w u _) (ih _)
+
+/-- the replies copy_chars writes while it decodes input change a user only through single-user steps of that user -/
+theorem pres_inputW (k : Nat) (s0 : St) (u : Nat) :
+    ∀ (bs : List Byte) (lm : Nat) (w : World), PresAt k s0 w (inputW w u bs lm) := by
+  intro bs
+  induction bs with
+  | nil => intro lm w; exact pres_id k s0 w
+  | cons b bs ih =>
+    intro lm w
+    unfold inputW
+    cases getU w u with
+    | none => exact pres_id k s0 w
+    | some s =>
+      simp only []
+      have := pres_comp (pres_comp (pres_stepAt k s0 w u (.telSet (telByte lm s.tel b).tel ((telByte lm s.tel b).lm != lm)))
+        (pres_tactW k s0 u (telByte lm s.tel b).acts _)) (ih (telByte lm s.tel b).lm _)
+      simpa [List.append_assoc] using this
+
 theorem pres_stepM (k : Nat) (s0 : St) (w : World) (op : MOp) : PresAt k s0 w (stepM w op) := by
   cases op with
   | on u o => exact pres_stepAt k s0 w u o
@@ -303,6 +328,29 @@ theorem pres_stepM (k : Nat) (s0 : St) (w : World) (op : MOp) : PresAt k s0 w (s
       split
       · exact pres_id k s0 w
       · exact pres_dropSnooper k s0 w a
+  | input u bs =>
+    simp only [stepM]
+    split
+    · have h1 := pres_inputW k s0 u bs (lmNow w) w
+      have h2 : PresAt k s0 (inputW w u bs (lmNow w)).1 ((inputW w u bs (lmNow w)).1,
+          inputSnoopW (inputW w u bs (lmNow w)).1 u bs) := by
+        apply pres_note
+        unfold inputSnoopW
+        split
+        · rename_i b _
+          by_cases hb : b = k <;> simp [userEvs, hb, ringEv]
+        · rfl
+      have h3 : PresAt k s0 (inputW w u bs (lmNow w)).1
+          (if (getU w u).any (fun s => s.want) = true then stepAt (inputW w u bs (lmNow w)).1 u .flushQ
+           else ((inputW w u bs (lmNow w)).1, [])) := by
+        split
+        · exact pres_stepAt k s0 _ u .flushQ
+        · exact pres_id k s0 _
+      have h4 := pres_stepEach k s0 (fun x => if x = u then Op.showSt else Op.wready) (List.range w.length)
+        (if (getU w u).any (fun s => s.want) = true then stepAt (inputW w u bs (lmNow w)).1 u .flushQ
+           else ((inputW w u bs (lmNow w)).1, [])).1
+      exact pres_comp (pres_comp (pres_comp h1 h2) h3) h4
+    · exact pres_stepEach k s0 _ _ w
   | writeR u v d =>
     simp only [stepM]
     have h1 := pres_writeW k s0 (fuelOf w) w u v d
